@@ -177,16 +177,20 @@ Inductive pending :=
 Definition same_mailbox (requested received : bytes) : bool :=
   bytes_eqb requested received || (equal_fold_ascii requested INBOX && equal_fold_ascii received INBOX).
 
-(* handleFetch's handleMsg: the UID known when the message is routed — at the first item that
-   carries a literal, at the 33rd item (cap(items) = 32), else after the last item *)
+(* handleFetch's handleMsg while a UID FETCH is pending: the UID known when the message is routed —
+   at the first item that carries a literal or at the 33rd item (cap(items) = 32) when a UID has
+   been seen by then; otherwise the items are held back (holding) until the UID item; else after
+   the last item *)
 Definition carries_literal (i : citem) : bool :=
   match i with CSection _ (Some _) => true | CBinary _ (Some _) => true | _ => false end.
-Fixpoint uid_at_routing (items : list citem) (count : nat) (uid : N) : N :=
+Fixpoint uid_at_routing (items : list citem) (count : nat) (uid : N) (holding : bool) : N :=
   match items with
   | [] => uid
   | i :: r =>
       let uid' := match i with CUid n => n | _ => uid end in
-      if carries_literal i || Nat.ltb 32 (S count) then uid' else uid_at_routing r (S count) uid'
+      if holding || carries_literal i || Nat.ltb 32 (S count) then
+        (if uid' =? 0 then uid_at_routing r (S count) uid' true else uid')
+      else uid_at_routing r (S count) uid' false
   end.
 
 (* FetchCommand.recvSeqNum / recvUID: requested, and not received before *)
@@ -214,7 +218,7 @@ Fixpoint add_nums (s : nset) (l : list N) : option nset :=
 Definition apply_untagged (tag : bytes) (p : pending) (r : resp) : pending :=
   match r, p with
   | RFetch seq items, PFetch uk req recv msgs =>
-      let key := if uk then uid_at_routing items O 0 else seq in
+      let key := if uk then uid_at_routing items O 0 false else seq in
       if key =? 0 then p
       else match recv_num req recv key with
            | None => PCrash
